@@ -8,9 +8,37 @@
    callback environment [env] and every script (registrations, cancellations, clock advances,
    NOHANG and sleeping iterations). *)
 From Coq Require Import ZArith List.
-From Tickit Require Import LoopDefs LoopSpec LoopAsIs LoopProofs.
+From Tickit Require Import LoopDefs LoopSpec LoopAsIs LoopProofs LoopRefine LoopOrder.
 Import ListNotations.
 Local Open Scope Z_scope.
+
+(* the model of the repaired code produces, for every callback environment and every script,
+   exactly the log of the priority-queue specification (LoopSpec, queue formulation: pending
+   timers keyed by (deadline, registration number); an iteration takes the due ones, in key
+   order, then the deferred ones, out of the pending structures as its snapshot and invokes
+   them one by one with FIRE|UNBIND; cancel removes a watch wherever it is, the snapshot
+   included, with UNBIND iff asked; registrations go to the pending structures and so wait;
+   destruction notifies every remaining asker once).  The identity-snapshot formulation of
+   the same specification (nothing is ever detached) is what the oracle runs; the oracle also
+   demands that the two formulations agree on every case. *)
+Theorem C17_refines : forall env ops, run false env ops = qspec_run env ops.
+Proof. exact refines. Qed.
+Print Assumptions C17_refines.
+
+(* in a whole history no watch is invoked (FIRE) more than once *)
+Theorem C17_at_most_once : forall env ops id, (fires id (run false env ops) <= 1)%nat.
+Proof. exact at_most_once. Qed.
+Print Assumptions C17_at_most_once.
+
+(* the timer callbacks an iteration invokes are, oldest first, the (deadline, registration
+   number) keys of a list that is strictly increasing in that key: deadline order, equal
+   deadlines in registration order *)
+Theorem C17_order : forall env ops sleep dt,
+  exists fired nw,
+    log (tick false env sleep dt (run_ops false env ops)) = nw ++ log (run_ops false env ops) /\
+    map okey (filter is_tfire nw) = rev (map wkey fired) /\ ksorted fired.
+Proof. exact iteration_order. Qed.
+Print Assumptions C17_order.
 
 (* a timer callback is never invoked before its deadline *)
 Theorem C17_never_early : forall bug env ops e,
